@@ -167,7 +167,7 @@ Silent ==
   /\ UNCHANGED l
   /\ \/ \E c \in Clients : C_Enqueue(c) \/ C_Apply(c)
      \/ S_TickFlush \/ W_Dead
-     \/ (wclosed /\ (S_Truncate \/ R_Replace \/ A_End("snap") \/ A_End("rw")))   \* command refused after Close: no cmd event
+     \/ (wclosed /\ (S_Truncate \/ R_Replace \/ A_End("snap") \/ A_End("rw") \/ A_Fail))   \* command refused after Close: no cmd event
      \/ A_Capture("snap") \/ A_Capture("rw")
 
 TraceInit == Init /\ l = 1 /\ ackseen = Zero /\ ackclose = Zero
